@@ -250,3 +250,32 @@ Proof.
       apply (AllocPolicyP.names_unique_eq (s_pools a)); auto. congruence. }
     subst q. rewrite <- Hfam. apply in_pool_usable_concat. apply Hall. exact Hxe.
 Qed.
+
+Local Open Scope Z_scope.
+(* C11 "no reported count is ever negative": available = capacity - assigned >= 0, for
+   every reachable allocator state; the hypothesis [assigned <= max_i64] only matters in
+   the saturated case (more than 2^63-1 addresses assigned is physically impossible) *)
+Theorem available_nonneg a n p f :
+  Inv a -> PoolCoh a -> NoDup (map p_name (by_name (s_pools a))) ->
+  find_pool (s_pools a) n = Some p -> wf_pool_lens p ->
+  assigned a n f <= max_i64 ->
+  0 <= pool_capacity p f - assigned a n f.
+Proof.
+  intros HI HP Hnd Hf Hwf Hmax. rewrite (pool_capacity_saturating p f Hwf).
+  destruct (exact_sum (p_avoid p) f (p_cidrs p)) as [m|] eqn:E.
+  - pose proof (assigned_le_capacity a n p f m HI HP Hnd Hf Hwf E). lia.
+  - lia.
+Qed.
+
+Corollary counters_nonneg a n p :
+  Inv a -> PoolCoh a -> NoDup (map p_name (by_name (s_pools a))) ->
+  find_pool (s_pools a) n = Some p -> wf_pool_lens p ->
+  assigned a n F4 <= max_i64 -> assigned a n F6 <= max_i64 ->
+  let c := counters_for a n in
+  0 <= c_assigned4 c /\ 0 <= c_assigned6 c /\ 0 <= c_avail4 c /\ 0 <= c_avail6 c.
+Proof.
+  intros HI HP Hnd Hf Hwf H4 H6. unfold counters_for. rewrite Hf. cbn.
+  pose proof (available_nonneg a n p F4 HI HP Hnd Hf Hwf H4).
+  pose proof (available_nonneg a n p F6 HI HP Hnd Hf Hwf H6).
+  unfold assigned in *. repeat split; try lia.
+Qed.
